@@ -60,42 +60,26 @@ SIZES = {
 
 
 def build_tasks(prop, tier, seed):
+    """Tasks in the order the families are listed in SIZES (primary family first)."""
     sz = SIZES[prop][tier]
     tasks = []
     n = 0
-    for i in range(sz.get('s1', 0)):
-        t = {'type': 's1group', 'seed': task_seed(seed, prop, n), 'm': sz.get('m', 3),
-             'props': [prop]}
-        if prop == 'C09':
-            t['force'] = ('stall', 'pct', 'walk', 'stall')[i % 4]
-            t['nboards'] = (1, 2, 2, 3)[i % 4]
-        tasks.append(t)
-        n += 1
-    for i in range(sz.get('s2', 0)):
-        tasks.append({'type': 's2', 'seed': task_seed(seed, prop, n), 'props': [prop]})
-        n += 1
-    for i in range(sz.get('s2enum', 0)):
-        tasks.append({'type': 's2enum', 'seed': task_seed(seed, prop, n), 'props': [prop]})
-        n += 1
-    for i in range(sz.get('s3', 0)):
-        tasks.append({'type': 's3', 'seed': task_seed(seed, prop, n), 'props': [prop]})
-        n += 1
-    for i in range(sz.get('s3enum', 0)):
-        tasks.append({'type': 's3enum', 'seed': task_seed(seed, prop, n), 'props': [prop]})
-        n += 1
-    for i in range(sz.get('s4', 0)):
-        tasks.append({'type': 's4', 'seed': task_seed(seed, prop, n), 'props': [prop]})
-        n += 1
-    for i in range(sz.get('s4enum', 0)):
-        tasks.append({'type': 's4enum', 'seed': task_seed(seed, prop, n), 'props': [prop]})
-        n += 1
-    for i in range(sz.get('vanish', 0)):
-        tasks.append({'type': 'vanish', 'seed': task_seed(seed, prop, n), 'props': [prop]})
-        n += 1
-    for i in range(sz.get('sweep', 0)):
-        tasks.append({'type': 'sweep', 'seed': task_seed(seed, prop, n), 'props': [prop],
-                      'variant': i})
-        n += 1
+    for fam, count in sz.items():
+        if fam == 'm':
+            continue
+        for i in range(count):
+            t = {'seed': task_seed(seed, prop, n), 'props': [prop]}
+            if fam == 's1':
+                t.update(type='s1group', m=sz.get('m', 3))
+                if prop == 'C09':
+                    t['force'] = ('stall', 'pct', 'walk', 'stall')[i % 4]
+                    t['nboards'] = (1, 2, 2, 3)[i % 4]
+            elif fam == 'sweep':
+                t.update(type='sweep', variant=i)
+            else:
+                t['type'] = fam
+            tasks.append(t)
+            n += 1
     return tasks
 
 
